@@ -525,6 +525,18 @@ pub fn scenario(ch: &mut Chooser, thorough: bool) -> Exec {
 // when the connector->listener direction is cut must fail with ConnectionRefused within a
 // few steps; one whose SYN arrived before must succeed.
 
+/// the two ends of the link as names, or the second / both of them as a regex that matches
+/// both hosts (pairs of a host with itself are skipped by the library)
+macro_rules! on_link {
+    ($sel:expr, $($call:tt)+) => {
+        match $sel {
+            0 => $($call)+("con", "lst"),
+            1 => $($call)+("con", regex::Regex::new("^(con|lst)$").unwrap()),
+            _ => $($call)+(regex::Regex::new("^(con|lst)$").unwrap(), "lst"),
+        }
+    };
+}
+
 pub fn partition_scenario(ch: &mut Chooser, thorough: bool) -> Exec {
     let listener_first = ch.flag("listener_registered_first");
     let v6 = thorough && ch.flag("ipv6");
@@ -535,6 +547,7 @@ pub fn partition_scenario(ch: &mut Chooser, thorough: bool) -> Exec {
     let fault_before: usize = *ch.of("fault_before_step", &[1usize, 2, 3, 4, 5]);
     let release_before: Option<usize> = if held { *ch.of("release_before_step", &[None, Some(3usize), Some(6)]) } else { None };
     let repair_after: Option<usize> = *ch.of("repair_after_steps", &[None, Some(2usize)]);
+    let sel = ch.choose("link_named_by(names|con + regex matching both|regex matching both + lst)", 3);
 
     let mut b = builder(1);
     b.min_message_latency(std::time::Duration::from_millis(2)).max_message_latency(std::time::Duration::from_millis(2));
@@ -617,10 +630,10 @@ pub fn partition_scenario(ch: &mut Chooser, thorough: bool) -> Exec {
             loop {
                 let c = ctl2.borrow_mut().take();
                 match c {
-                    Some(0) => turmoil::partition("con", "lst"),
-                    Some(1) => turmoil::partition_oneway("con", "lst"),
-                    Some(2) => turmoil::repair("con", "lst"),
-                    Some(3) => turmoil::repair_oneway("con", "lst"),
+                    Some(0) => on_link!(sel, turmoil::partition),
+                    Some(1) => on_link!(sel, turmoil::partition_oneway),
+                    Some(2) => on_link!(sel, turmoil::repair),
+                    Some(3) => on_link!(sel, turmoil::repair_oneway),
                     _ => {}
                 }
                 tokio::time::sleep(std::time::Duration::from_millis(1)).await;
@@ -631,8 +644,8 @@ pub fn partition_scenario(ch: &mut Chooser, thorough: bool) -> Exec {
     let mut violation: Option<Violation> = None;
     let total = 24;
     if held {
-        sim.hold("con", "lst");
-        obs.push("hold(con, lst) before step 0".into());
+        on_link!(sel, sim.hold);
+        obs.push(format!("hold(con, lst) before step 0 (link selector form {sel})"));
     }
     // when the fault is issued from host code it takes effect during the step before
     let mut fault_effective: Option<usize> = None;
@@ -645,15 +658,15 @@ pub fn partition_scenario(ch: &mut Chooser, thorough: bool) -> Exec {
         }
         if !from_host && k == fault_before {
             if kind == 0 {
-                sim.partition("con", "lst")
+                on_link!(sel, sim.partition)
             } else {
-                sim.partition_oneway("con", "lst")
+                on_link!(sel, sim.partition_oneway)
             }
             fault_effective = Some(k);
             obs.push(format!("before step {k}: {}", if kind == 0 { "partition(con, lst)" } else { "partition_oneway(con, lst)" }));
         }
         if Some(k) == release_before {
-            sim.release("con", "lst");
+            on_link!(sel, sim.release);
             obs.push(format!("before step {k}: release(con, lst)"));
         }
         if let (Some(f), Some(r)) = (fault_effective, repair_after) {
@@ -661,9 +674,9 @@ pub fn partition_scenario(ch: &mut Chooser, thorough: bool) -> Exec {
                 if from_host {
                     *ctl.borrow_mut() = Some(2 + kind as u8);
                 } else if kind == 0 {
-                    sim.repair("con", "lst")
+                    on_link!(sel, sim.repair)
                 } else {
-                    sim.repair_oneway("con", "lst")
+                    on_link!(sel, sim.repair_oneway)
                 }
                 obs.push(format!("{} step {k}: {}", if from_host { "in" } else { "before" }, if kind == 0 { "repair(con, lst)" } else { "repair_oneway(con, lst)" }));
             }
@@ -754,7 +767,7 @@ pub fn partition_scenario(ch: &mut Chooser, thorough: bool) -> Exec {
     if let Some(v) = violation.as_mut() {
         v.sig = format!("handshake-partition|{}", v.clause);
         v.scenario = format!(
-            "c12-partition tier={} listener_first={listener_first} v6={v6} held={held} kind={kind} from_host={from_host} fault_before={fault_before} release_before={release_before:?} repair_after={repair_after:?}",
+            "c12-partition tier={} listener_first={listener_first} v6={v6} held={held} link_selector={sel} kind={kind} from_host={from_host} fault_before={fault_before} release_before={release_before:?} repair_after={repair_after:?}",
             if thorough { "thorough" } else { "quick" }
         );
         v.actions = obs.clone();
